@@ -187,6 +187,8 @@ func c06Inputs(st c06State, thorough bool) (out []c06Input) {
 			for _, s := range []uint32{0, 5, 0x12345678} {
 				add(fmt.Sprintf("%s:%s:sender-tag", src, kind), fmt.Sprintf("%s %s with sender tag %#x", src, kind, s), c15Retag(g, s, binary.BigEndian.Uint32(raw[7:])))
 			}
+			// both tags foreign: a message between two other instances, none of our business
+			add(fmt.Sprintf("%s:%s:both-tags", src, kind), fmt.Sprintf("%s %s with sender tag 0x5a5a5a5a and receiver tag 0x6b6b6b6b", src, kind), c15Retag(g, 0x5a5a5a5a, 0x6b6b6b6b))
 			for _, rc := range []uint32{0x50, 0x23456789} {
 				add(fmt.Sprintf("%s:%s:receiver-tag", src, kind), fmt.Sprintf("%s %s with receiver tag %#x", src, kind, rc), c15Retag(g, binary.BigEndian.Uint32(raw[3:]), rc))
 			}
